@@ -96,7 +96,7 @@ def load_fonts(tier):
 
 def dump_table(font, tag):
     buf = io.StringIO()
-    font.saveXML(buf, tables=[tag], writeVersion=False, quiet=True)
+    font.saveXML(buf, tables=[tag], writeVersion=False)
     return buf.getvalue()
 
 
